@@ -226,7 +226,7 @@ def oracle_spelling(ctx):
 
 
 def run(ctx):
-    ctx.check_proofs(["MPilot.Props.C06"])
+    ctx.check_proofs(["MPilot.Props.C06", "MPilot.Props.C06Cells"])
     model = common.Model()
     orc = numeric.combine(
         numeric.oracle_definition(ctx, reference.FUZZY_OPS, "EEMS", in_range_only=True),
